@@ -127,6 +127,7 @@ type ctlPlan struct {
 type scenario struct {
 	kind     int
 	rate0    int
+	lowRate  bool // rate0 below minRate (leaky bucket only): no rate changes, sized for rate0
 	interval time.Duration // pacing interval (gcc pacers: fixed 5 ms)
 	defaults bool          // pacing: no options at all (1 Mbit/s, 5 ms)
 	streams  []streamPlan
@@ -189,6 +190,11 @@ func buildScenario(r *vf.Rand) *scenario {
 	}
 	s.rate0 = drawRate(r)
 	s.interval = 5 * time.Millisecond
+	if s.kind == kLeaky && r.Chance(0.08) {
+		// a configuration extreme: less than one byte of budget per 5 ms tick
+		s.rate0 = r.Pick(200, 800, 1500, 1599, 1600, 4000)
+		s.lowRate = true
+	}
 	if s.kind == kPacing {
 		s.interval = drawInterval(r)
 		if r.Chance(0.06) {
@@ -201,7 +207,7 @@ func buildScenario(r *vf.Rand) *scenario {
 
 	// rate changes (values first: the workload is sized for the lowest rate)
 	rates := []int{s.rate0}
-	if (s.kind == kPacing || s.kind == kLeaky) && !s.short && r.Chance(0.6) {
+	if (s.kind == kPacing || s.kind == kLeaky) && !s.short && !s.lowRate && r.Chance(0.6) {
 		cur := s.rate0
 		for i, n := 0, r.Range(1, 4); i < n; i++ {
 			switch r.Intn(4) {
@@ -531,6 +537,10 @@ func (w *cappedWriter) Write(h *rtp.Header, payload []byte, a interceptor.Attrib
 // driver
 
 func run(c *vf.Case) {
+	if c.Idx%25 == 7 {
+		runCloseWithBacklog(c)
+		return
+	}
 	s := buildScenario(c.R)
 	comp := compNames[s.kind]
 	c.Add("cases_"+comp, 1)
